@@ -16,7 +16,7 @@ def run(ctx):
                 "periods x query dates (before epoch, before/at/inside/after each maneuver); matrix entries are compared at lattice "
                 "times tau = k pi/2, k = -8..8 and seeded random times, for several target radii and both orientations. "
                 "Distinct/non-trivial = distinct (orientation, maneuver kinds, backwards) classes")
-    consts = {"Times": {0, 2, 3, 5, 8, 12} if not thorough else {0, 1, 2, 3, 4, 5, 6, 8, 11, 12, 16}, "MaxMans": 2 if not thorough else 3,
+    consts = {"Times": {0, 2, 3, 5, 8, 12} if not thorough else {0, 1, 2, 3, 5, 8, 12, 16}, "MaxMans": 2 if not thorough else 3,
               "Durations": {2, 3} if not thorough else {1, 2, 4}}
     name, mc, cl = tlcmod.wrap("CW", consts)
     mc = mc.replace("====", "ASSUME ExportTables\n====")
